@@ -142,7 +142,7 @@ Definition map_sem (r : map_rules) (kvs : list (str * value)) : Prop :=
 (* ---- presence --------------------------------------------------------------------- *)
 Definition message_typed (t : fty) : Prop :=
   match t with
-  | TDate _ _ | TDecimal _ _ | TTimestamp _ _ | TAny _ _ _ | TObject _ _ | TOneof _ _ => True
+  | TDate _ _ | TDecimal _ _ | TTimestamp _ _ | TAny _ _ _ | TObject _ _ _ | TOneof _ _ _ => True
   | _ => False
   end.
 
